@@ -122,5 +122,10 @@ theorem cur_step {cfg : Cfg} {s s' : St} {a : Act} (hpf : cfg.pendFirst = true) 
     split at hs
     · cases hs; exact Or.inl rfl
     · cases hs
+  | env df dv =>
+    simp only [step] at hs
+    split at hs
+    · cases hs; exact Or.inl rfl
+    · cases hs
 
 end LinVerif.Lemmas.C02
